@@ -193,6 +193,23 @@ def run(ctx):
                     configs.append(([opts(m, 1, first[0]), opts(m, 1, deep)], [opts(m, 1, last)]))
                     configs.append(([opts(m, 1, last)], [opts(m, 1, first[1]), opts(m, 1, deep)]))
                     configs.append(([opts(m, 1, first[0]), opts(m, 1, deep), opts(m, 1, deep)], [opts(m, 1, first[1]), opts(m, 1, last)]))
+    # lists of EQUAL length in which ONE level (the first, the middle or the last) is not an adjoint pair and all others are:
+    # the flag is the conjunction over the levels, so it must be False wherever that level sits
+    for m in ('gauss_seidel', 'sor', 'block_gauss_seidel', 'gauss_seidel_nr'):
+        for bad in (('forward', 'forward'), ('backward', 'backward'), ('forward', 'symmetric')):
+            for depth in (2, 3):
+                for pos in range(depth):
+                    pre_ = [opts(m, 1, 'symmetric')] * depth
+                    post_ = [opts(m, 1, 'symmetric')] * depth
+                    pre_[pos], post_[pos] = opts(m, 1, bad[0]), opts(m, 1, bad[1])
+                    configs.append((pre_, post_))
+    for m in ('jacobi', 'richardson', 'chebyshev'):
+        for depth in (2, 3):
+            for pos in range(depth):
+                pre_ = [opts(m, 1)] * depth
+                post_ = [opts(m, 1)] * depth
+                post_[pos] = opts(m, 2)
+                configs.append((pre_, post_))
     if not (ctx.thorough or ctx.search):
         head = configs[:]
         rng.shuffle(head)
